@@ -10,10 +10,15 @@
 (*    (first/last segments are pinned by the endpoints) when the channel -- *)
 (*    the free interval perpendicular to the stretch between the nearest    *)
 (*    immovable things: obstacle sides and first/last segments of any       *)
-(*    connector -- has room for the k sharing segments at distance d        *)
-(*  - parallel interior segments of different connectors that overlap in    *)
-(*    extent are either coincident or at least d/10 apart (the smallest     *)
-(*    distance the 10-step reduction can choose)                            *)
+(*    connector, measured along the whole extent of each sharing segment -- *)
+(*    has room for the k sharing segments at distance d                     *)
+(*  - interior segments of different connectors that ran collinear and      *)
+(*    overlapping in the raw routes and were separated are at least d/10    *)
+(*    apart (the smallest distance the 10-step reduction can choose) --     *)
+(*    an OBSERVATION only, see DESIGN section 10                            *)
+(*  - with nudgeSharedPathsWithCommonEndPoint off, "sharing an endpoint"    *)
+(*    is tagged separately when an endpoint of one connector lies on the    *)
+(*    other's route (the library's wider notion of a common end)            *)
 EXTENDS Integers, Sequences, FiniteSets, TLC, Json, IOUtils
 Data == JsonDeserialize(IOEnv.NUDGERECS)
 Recs == Data.recs     \* rects (x LS), d (x LS), conns: src, dst, raw, disp, cps (x LS)
@@ -40,17 +45,19 @@ OnSegT(a, b, p) == /\ p[1] >= Mn(a[1], b[1]) - TOL /\ p[1] <= Mx(a[1], b[1]) + T
                    /\ p[2] >= Mn(a[2], b[2]) - TOL /\ p[2] <= Mx(a[2], b[2]) + TOL
 OnRoute(rt, p) == \E i \in 1..(Len(rt) - 1) : OnSegT(rt[i], rt[i + 1], p)
 \* segments of the displayed routes: [c, i, h (horizontal?), pos (the fixed coordinate), lo, hi, interior]
-Segs(r) == UNION { LET D == Simplify(r.conns[c].disp) IN
-                   { [c |-> c, h |-> Horiz(D[i], D[i + 1]),
+SegsOf(r, raw) == UNION { LET D == Simplify(IF raw THEN r.conns[c].raw ELSE r.conns[c].disp) IN
+                   { [c |-> c, i |-> i, h |-> Horiz(D[i], D[i + 1]),
                       pos |-> IF Horiz(D[i], D[i + 1]) THEN D[i][2] ELSE D[i][1],
                       lo |-> IF Horiz(D[i], D[i + 1]) THEN Mn(D[i][1], D[i + 1][1]) ELSE Mn(D[i][2], D[i + 1][2]),
                       hi |-> IF Horiz(D[i], D[i + 1]) THEN Mx(D[i][1], D[i + 1][1]) ELSE Mx(D[i][2], D[i + 1][2]),
-                      interior |-> i > 1 /\ i < Len(D) - 1] : i \in 1..(Len(D) - 1) } : c \in DOMAIN r.conns }
+                      \* "interior" = movable by nudging: not the first or last segment (pinned by the endpoints) and not carrying a checkpoint
+                      interior |-> i > 1 /\ i < Len(D) - 1 /\ \A q \in DOMAIN r.conns[c].cps : ~OnSegT(D[i], D[i + 1], r.conns[c].cps[q])] : i \in 1..(Len(D) - 1) } : c \in DOMAIN r.conns }
+Segs(r) == SegsOf(r, FALSE)
 ShareEnd(r, a, b) == \E p \in {r.conns[a].src, r.conns[a].dst} : p \in {r.conns[b].src, r.conns[b].dst}
 OverlapLen(s, t) == Mn(s.hi, t.hi) - Mx(s.lo, t.lo)
 \* immovable things bounding the channel of a stretch [lo, hi] at coordinate pos (horizontal iff h)
 RectSpan(q, h) == IF h THEN <<q[1], q[3], q[2], q[4]>> ELSE <<q[2], q[4], q[1], q[3]>>       \* <<alongLo, alongHi, acrossLo, acrossHi>>
-ChannelWidth(r, h, pos, lo, hi) ==
+ChannelBounds(r, h, pos, lo, hi) ==
     LET rs == {RectSpan(<<r.rects[i][1] - r.buf, r.rects[i][2] - r.buf, r.rects[i][3] + r.buf, r.rects[i][4] + r.buf>>, h) : i \in DOMAIN r.rects}   \* obstacles grown by the buffer distance
         blockers == {q \in rs : Mn(q[2], hi) - Mx(q[1], lo) > TOL}
         fixedSegs == {s \in Segs(r) : s.h = h /\ ~s.interior /\ Mn(s.hi, hi) - Mx(s.lo, lo) > TOL}
@@ -58,25 +65,62 @@ ChannelWidth(r, h, pos, lo, hi) ==
         below == {q[4] : q \in {q \in blockers : q[4] <= pos + TOL}} \cup {s.pos : s \in {s \in fixedSegs : s.pos < pos - TOL}}
         up == IF above = {} THEN BIG ELSE CHOOSE x \in above : \A y \in above : x <= y
         dn == IF below = {} THEN -BIG ELSE CHOOSE x \in below : \A y \in below : x >= y
-    IN  up - dn
+    IN  <<dn, up>>
 Tags(r) ==
     IF r.thrown THEN {"exception"} ELSE
     LET S == Segs(r)
         shared == {<<s, t>> \in S \X S : s.c < t.c /\ s.h = t.h /\ s.interior /\ t.interior /\ ~ShareEnd(r, s.c, t.c)
                                          /\ Abs(s.pos - t.pos) <= TOL /\ OverlapLen(s, t) > 2 * TOL}
-        close  == {<<s, t>> \in S \X S : s.c < t.c /\ s.h = t.h /\ s.interior /\ t.interior /\ ~ShareEnd(r, s.c, t.c)
-                                         /\ Abs(s.pos - t.pos) > TOL /\ 10 * Abs(s.pos - t.pos) < r.d - 10 * TOL /\ OverlapLen(s, t) > 2 * TOL}
+        \* "segments that were separated": the same two segments (same index in routes that kept their number of segments) ran collinear
+        \* and overlapping in the raw routes and no longer do; the smallest distance the 10-step reduction can choose is d/10
+        R == SegsOf(r, TRUE)
+        Kept(c) == Len(Simplify(r.conns[c].raw)) = Len(Simplify(r.conns[c].disp))
+        WereShared(s, t) == \E a \in R, b \in R : a.c = s.c /\ a.i = s.i /\ b.c = t.c /\ b.i = t.i /\ a.h = b.h
+                                                  /\ Abs(a.pos - b.pos) <= TOL /\ OverlapLen(a, b) > 2 * TOL
+        close  == {<<s, t>> \in S \X S : s.c < t.c /\ s.h = t.h /\ s.interior /\ t.interior /\ ~ShareEnd(r, s.c, t.c) /\ Kept(s.c) /\ Kept(t.c)
+                                         /\ Abs(s.pos - t.pos) > TOL /\ 10 * Abs(s.pos - t.pos) < r.d - 10 * TOL /\ OverlapLen(s, t) > 2 * TOL
+                                         /\ WereShared(s, t)}
     IN  UNION { (IF ~Near(r.conns[c].disp[1], r.conns[c].raw[1]) \/ ~Near(r.conns[c].disp[Len(r.conns[c].disp)], r.conns[c].raw[Len(r.conns[c].raw)])
                  THEN {"endpoint-moved"} ELSE {})
                 \cup (IF NSeg(r.conns[c].disp) > NSeg(r.conns[c].raw) THEN {"segments-added"} ELSE {})
                 \cup (IF \E i \in DOMAIN r.conns[c].cps : ~OnRoute(r.conns[c].disp, r.conns[c].cps[i]) THEN {"checkpoint-off-route"} ELSE {})
                 : c \in DOMAIN r.conns }
-        \cup (IF \E p \in shared : LET s == p[1] t == p[2]
-                                       lo == Mx(s.lo, t.lo)  hi == Mn(s.hi, t.hi)
-                                       k == Cardinality({u \in S : u.h = s.h /\ u.interior /\ Abs(u.pos - s.pos) <= TOL /\ Mn(u.hi, hi) - Mx(u.lo, lo) > 2 * TOL})
-                                   IN  ChannelWidth(r, s.h, s.pos, lo, hi) >= k * r.d + r.d
-              THEN {"overlap-in-wide-channel"} ELSE {})
-        \cup (IF close # {} THEN {"separated-by-less-than-a-tenth-of-d"} ELSE {})
+        \cup (LET Wide(p) == LET s == p[1] t == p[2]
+                                  lo == Mx(s.lo, t.lo)  hi == Mn(s.hi, t.hi)
+                                  \* the segments sharing this stretch; a segment moves as a whole, so each has the free interval of its
+                                  \* own whole extent, and the channel they run in together is what those intervals have in common
+                                  G == {u \in S : u.h = s.h /\ u.interior /\ Abs(u.pos - s.pos) <= TOL /\ Mn(u.hi, hi) - Mx(u.lo, lo) > 2 * TOL}
+                                  B == [u \in G |-> ChannelBounds(r, u.h, u.pos, u.lo, u.hi)]
+                                  up == CHOOSE x \in {B[u][2] : u \in G} : \A y \in {B[u][2] : u \in G} : x <= y
+                                  dn == CHOOSE x \in {B[u][1] : u \in G} : \A y \in {B[u][1] : u \in G} : x >= y
+                              IN  up - dn >= Cardinality(G) * r.d + r.d
+                  wide == {p \in shared : Wide(p)}
+                  \* an endpoint of one connector lies on the other's displayed route: their shared path ends at that endpoint
+                  EndOnOther(a, b) == \E q \in {r.conns[a].src, r.conns[a].dst} : OnRoute(r.conns[b].disp, q)
+                  \* a movable (interior) segment lying on top of a first/last segment of another connector, with room for all the
+                  \* movable segments of the stretch on BOTH sides of it (whatever order the router prefers, it can be moved off)
+                  \* (with nudgeOrthogonalSegmentsConnectedToShapes, opts bit 0, first/last segments are movable themselves: rule not applied)
+                  onFixed == {<<s, t>> \in S \X S : r.opts % 2 = 0 /\ s.c # t.c /\ s.h = t.h /\ s.interior /\ ~t.interior /\ ~ShareEnd(r, s.c, t.c)
+                                                     /\ Abs(s.pos - t.pos) <= TOL /\ OverlapLen(s, t) > 2 * TOL}
+                  WideF(p) == LET s == p[1] t == p[2]
+                                   lo == Mx(s.lo, t.lo)  hi == Mn(s.hi, t.hi)
+                                   M == {u \in S : u.h = s.h /\ u.interior /\ Abs(u.pos - s.pos) <= TOL /\ Mn(u.hi, hi) - Mx(u.lo, lo) > 2 * TOL}
+                                   B == [u \in M |-> ChannelBounds(r, u.h, u.pos, u.lo, u.hi)]
+                                   up == CHOOSE x \in {B[u][2] : u \in M} : \A y \in {B[u][2] : u \in M} : x <= y
+                                   dn == CHOOSE x \in {B[u][1] : u \in M} : \A y \in {B[u][1] : u \in M} : x >= y
+                               IN  up - s.pos >= Cardinality(M) * r.d + r.d /\ s.pos - dn >= Cardinality(M) * r.d + r.d
+                  wideF == {p \in onFixed : WideF(p)}
+              IN  IF wide = {} /\ wideF # {}
+                  THEN (IF \A p \in wideF : EndOnOther(p[1].c, p[2].c) \/ EndOnOther(p[2].c, p[1].c)
+                        THEN {"overlap-with-end-segment-in-wide-channel:shared-path-ends-at-an-endpoint-of-one-connector"}
+                        ELSE {"overlap-with-end-segment-in-wide-channel"})
+                  ELSE IF wide = {} THEN {}
+                  ELSE IF \A p \in wide : EndOnOther(p[1].c, p[2].c) \/ EndOnOther(p[2].c, p[1].c)
+                       THEN {"overlap-in-wide-channel:shared-path-ends-at-an-endpoint-of-one-connector"}
+                       ELSE {"overlap-in-wide-channel"})
+        \* not a violation (the statement only promises a positive reduced distance, and segments are also placed by channel centring):
+        \* reported as an observation "obs:..." and counted in the evidence
+        \cup (IF close # {} THEN {"obs:separated-by-less-than-a-tenth-of-d"} ELSE {})
 NonTrivial(r) == ~r.thrown /\ \E c \in DOMAIN r.conns : r.conns[c].disp # r.conns[c].raw /\ Len(r.conns[c].raw) > 2
 VARIABLES k, phase, bad
 vars == <<k, phase, bad>>
